@@ -294,6 +294,7 @@ func (s *Schema) structType(t reflect.Type, p Params) M {
 type Gen struct {
 	R        *rand.Rand
 	MaxList  int // extra elements above the lower bound
+	MinList  int // if > 0: lists near the top of the value (the protocol IE lists) get at least this many elements
 	MaxStr   int
 	Depth    int
 	BadProb  float64 // probability of deliberately violating a constraint at a leaf
@@ -387,7 +388,8 @@ func (g *Gen) Fill(v reflect.Value, p Params, depth int) {
 		n := g.pickSize(p.SizeLB, p.SizeUB, p.SizeExt, 40)
 		b := make([]byte, (n+7)/8)
 		g.R.Read(b)
-		if n%8 != 0 {
+		if n%8 != 0 && g.R.Intn(4) != 0 {
+			// one value in four keeps random unused bits behind the last bit: they are not part of the value and must not reach the wire
 			b[len(b)-1] &= 0xff << uint(8-n%8)
 		}
 		v.Set(reflect.ValueOf(aper.BitString{Bytes: b, BitLength: uint64(n)}))
@@ -432,6 +434,9 @@ func (g *Gen) Fill(v reflect.Value, p Params, depth int) {
 			soft = 0
 		}
 		n := g.pickSize(p.SizeLB, p.SizeUB, p.SizeExt, soft)
+		if g.MinList > 0 && depth <= 4 && n < g.MinList && (p.SizeUB == nil || int64(g.MinList) <= *p.SizeUB) {
+			n = g.MinList
+		}
 		if n > 300 {
 			n = 300
 			if p.SizeLB != nil && int64(n) < *p.SizeLB {
